@@ -155,8 +155,9 @@ class YPPrologCompiler:
     def _debug(self,*args):
         if self.context.debug_generator:
             msg = " ".join([str(a) for a in args])
-            # the message may contain line breaks (quoted atoms): every line is a comment
-            for line in msg.splitlines() or ['']:
+            # the message may contain line breaks (quoted atoms): every line is a comment.
+            # Python source cannot contain NUL characters, not even in a comment.
+            for line in msg.replace('\0', '\\0').splitlines() or ['']:
                 self.context.outf.write('# ' + line + '\n')
     def push_bound_vars(self,variables):
         self.bound_vars.append(self.bound_vars[-1] + variables)
